@@ -186,6 +186,8 @@ class Expander:
             self.lines.append(Line("#[verifier::external_body]", dict(org, kind="import")))
         self.lines.append(Line(line, org))
         m = re.match(r"\s*(?:pub\s+)?(?:broadcast\s+)?proof\s+fn\s+(\w+)", line)
+        if m and not imported and len(self.lines) >= 2 and "external_body" in self.lines[-2].text:
+            m = None   # an assumed axiom (external_body proof fn) is an assumption, not an obligation
         if m:
             lm = LABEL_RX.search(line)
             props = None
